@@ -1132,7 +1132,25 @@ func genLimit(r *rand.Rand, id string, size int, total int) []string {
 	if g.pick(3) == 0 {
 		sortfn = " sortfn=revtie"
 	}
-	g.add("scn %s kind=%s acl=%s peers=%s%s", id, kind, joinInts(peers), joinInts(peers), sortfn)
+	// a writer that opens nothing: in a third of the scenarios it contributes an entry made by hand
+	extra := -1
+	if g.pick(2) == 0 {
+		for i := 0; i < total; i++ {
+			in := false
+			for _, q := range peers {
+				in = in || q == i
+			}
+			if !in {
+				extra = i
+				break
+			}
+		}
+	}
+	acl := joinInts(peers)
+	if extra >= 0 {
+		acl = joinInts(append(append([]int{}, peers...), extra))
+	}
+	g.add("scn %s kind=%s acl=%s peers=%s%s", id, kind, acl, joinInts(peers), sortfn)
 	p := peers[0]
 	n := 0
 	if lag {
@@ -1166,6 +1184,16 @@ func genLimit(r *rand.Rand, id string, size int, total int) []string {
 				g.add("sync %d %d", q, w)
 			}
 		}
+	}
+	if extra >= 0 && len(peers) > 1 {
+		// an entry by a writer who never writes through a store of its own (so that no identity has two
+		// clocks), on top of a member's log, that names as a parent an entry written for ANOTHER log: the
+		// foreign entry is never merged (it is not part of the persisted log) and must not count against
+		// a limit either
+		g.add("forge %d recipe=otherlog base=none k=%s v=%s", extra, hx([]byte("k")), hx(g.value()))
+		g.add("forge %d recipe=honest base=%d extra=@last k=%s v=%s", extra, peers[1], hx([]byte{'d', '1'}), hx([]byte("v7")))
+		g.add("inject %d heads=@last route=sync from=%d", p, extra)
+		n++
 	}
 	// the observer pulls from everyone (possibly leaving several heads)
 	for _, q := range peers[1:] {
